@@ -26,6 +26,7 @@ type SCase struct {
 	Name     string  `json:"harness"`
 	Threads  [][]TOp `json:"threads"`
 	Schedule []int   `json:"schedule"`
+	Stores   int     `json:"stores,omitempty"` // Store values opened on the one directory (thread i uses store i mod Stores); 0 = 1
 }
 
 type schedResult struct {
@@ -59,9 +60,17 @@ func runSchedule(c SCase) schedResult {
 	w := newWorld(nil)
 	defer w.close()
 	// the store is opened before the threads start (Init is not part of the race)
-	s := &fsstore.Store{}
-	if err := s.InitDefaults(w.base); err != nil {
-		panic(err)
+	nst := c.Stores
+	if nst < 1 {
+		nst = 1
+	}
+	var stores []*fsstore.Store
+	for i := 0; i < nst; i++ {
+		st := &fsstore.Store{}
+		if err := st.InitDefaults(w.base); err != nil {
+			panic(err)
+		}
+		stores = append(stores, st)
 	}
 	sc := core.NewSched()
 	w.ctl.sched = sc
@@ -72,6 +81,7 @@ func runSchedule(c SCase) schedResult {
 	for ti, ops := range c.Threads {
 		ti, ops := ti, ops
 		bodies = append(bodies, func() {
+			s := stores[ti%len(stores)]
 			for _, op := range ops {
 				want := contentOf(op.Key)
 				switch op.Kind {
@@ -137,6 +147,9 @@ func harnesses(quick bool) []SCase {
 		{Name: "writer-reader", Threads: [][]TOp{{{"put", "k1"}}, {{"get", "k1"}, {"get", "k1"}}}},
 		{Name: "stream-writer-reader-has", Threads: [][]TOp{{{"stream2", "k1"}}, {{"has", "k1"}, {"get", "k1"}}}},
 		{Name: "writer-writer-different-shards", Threads: [][]TOp{{{"put", "k1"}}, {{"put", "k2"}}}},
+		// two Store values opened on the one directory (two handles in a process, or two processes)
+		{Name: "two-stores-stream-writers", Stores: 2, Threads: [][]TOp{{{"stream2", "k1"}}, {{"stream2", "k2"}}}},
+		{Name: "two-stores-writer-writer-same-key", Stores: 2, Threads: [][]TOp{{{"put", "k1"}}, {{"stream2", "k1"}}}},
 	}
 	if !quick {
 		hs = append(hs,
